@@ -520,7 +520,8 @@ def hmacShift (c : Cls) (data : Bytes) : Nat :=
 
 /-- `TrustZone.from_binary(raw)` for the family: the first `tzSize` bytes, refused when shorter -/
 def tzFromBinary (c : Cls) (raw : Bytes) : PyRes TzCfg :=
-  if raw.length / 4 < c.tzSize / 4 then .error .spsdk else .ok (.custom (raw.take c.tzSize))
+  if c.tzSize = 0 then .error .spsdk       -- family without TrustZone database: `get_preset_data_size` / the preset file lookup raise
+  else if raw.length / 4 < c.tzSize / 4 then .error .spsdk else .ok (.custom (raw.take c.tzSize))
 
 def parseManifest (c : Cls) (k : ManifestKind) (d : Bytes) : PyRes (Nat × Nat × Bytes) :=
   if d.length < manifestHeaderSize then .error .other else     -- struct.error
@@ -714,7 +715,8 @@ def disassemblyAppData (c : Cls) (p : Parsed) (img : Bytes) : PyRes (Parsed × B
 def disassemble (c : Cls) (p : Parsed) (img : Bytes) : PyRes Parsed :=
   let fin (p : Parsed) (img : Bytes) (clean : Bool) : PyRes Parsed := do
     let (p, a) ← disassemblyAppData c p img
-    pure { p with app := some (if clean then cleanIvt a else a) }
+    -- the `app` setter pads what it is given to a multiple of 4 again
+    pure { p with app := some (align4 (if clean then cleanIvt a else a)) }
   match c.resolve .disassemble_image with
   | some .Mbi_ExportMixinApp => fin p img (c.hasAttr .clean_ivt)
   | some .Mbi_ExportMixinAppTrustZone =>
